@@ -49,6 +49,8 @@ def configs(draw):
         models[0]["enabled"] = True
     mode = draw(st.sampled_from(MODES))
     return {"models": models, "steps": draw(st.integers(1, 3)), "mode": mode, "exc": draw(st.sampled_from(EXC)),
+            # the failing model raises the very same exception object at every site of this configuration (as a failed future or a cached error does)
+            "same_instance": draw(st.sampled_from([False, False, True])),
             "temps": draw(st.lists(st.sampled_from([50.0, 100.0, 150.0, 200.0]), min_size=1, max_size=3, unique=True)) if mode.startswith("obs") else [100.0]}
 
 
@@ -66,7 +68,7 @@ def _pipeline(cfg, site, token):
     target = order[site["pos"]]["name"]
     for m in cfg["models"]:
         args = {"tag": m["name"], "token": token, "exc": cfg["exc"], "armed": m["name"] == target, "at_step": site["step"],
-                "at_temp": cfg["temps"][site["run"]]}
+                "at_temp": cfg["temps"][site["run"]], "same_instance": bool(cfg.get("same_instance"))}
         groups.setdefault(m["group"], []).append({"name": m["name"], "func": "vprobes.models.fault2", "enabled": m["enabled"], "arguments": args})
     return {"groups": groups, "yaml_perm": 0}
 
@@ -89,7 +91,7 @@ def run_site(cfg, site, rec, tmp):
 
     P.reset()
     mode = cfg["mode"]
-    token = f"TOKEN-{site['run']}-{site['step']}-{site['pos']}-Zq7"
+    token = f"TOKEN-{site['run']}-{site['step']}-{site['pos']}-Zq7" if not cfg.get("same_instance") else "TOKEN-same-object-Zq7"
     order = _order(cfg["models"])
     failing = order[site["pos"]]
     times = [float(i + 1) for i in range(cfg["steps"])]
@@ -187,8 +189,11 @@ def run_site(cfg, site, rec, tmp):
 
 
 def body(cfg, rec):
+    from vprobes import models as _P
+
+    _P.SAME_INSTANCE.clear()  # (per configuration; the sites of one configuration share the object)
     order = _order(cfg["models"])
-    rec.cls(f"mode:{cfg['mode']}", f"exc:{cfg['exc']}")
+    rec.cls(f"mode:{cfg['mode']}", f"exc:{cfg['exc']}", "same_exception_object_at_every_site" if cfg.get("same_instance") else "fresh_exception_objects")
     first = True
     for r in range(len(cfg["temps"])):
         for s in range(cfg["steps"]):
